@@ -120,7 +120,8 @@ func WriteShards(dir, corrModule string, cases []Case, shardSize int) error {
 		w := bufio.NewWriter(f)
 		fmt.Fprintf(w, "From V Require Import Base CorrBase %s.\nOpen Scope N_scope.\n", corrModule)
 		fmt.Fprintf(w, "(* shard %d: cases %d..%d *)\n", k, start, end-1)
-		fmt.Fprintf(w, "Definition base_index : nat := %d%%nat.\n", start)
+		// indices are shard-local (a large unary nat base overflows coqc's stack on read-back); check.py adds BASE
+		fmt.Fprintf(w, "(* BASE %d *)\nSet Printing Width 1000000.\nDefinition base_index : nat := 0%%nat.\n", start)
 		fmt.Fprintf(w, "Definition cases : list case := [\n")
 		for i := start; i < end; i++ {
 			if i > start {
